@@ -175,6 +175,8 @@ func TestReplay(t *testing.T) {
 	switch vrep.ReplayCheckName() {
 	case "Tree", "TreeEnum":
 		vrep.Replay(t, vrep.ReplayCheckName(), checkTree)
+	case "Inline":
+		vrep.Replay(t, "Inline", checkInline)
 	case "Concurrent":
 		for i := 0; i < 20; i++ {
 			vrep.Replay(t, "Concurrent", checkConcurrent)
